@@ -171,3 +171,54 @@ func genCase(prop string) func(t *rapid.T) mcase {
 		return c
 	}
 }
+
+// genDirected narrows genCase to the identifier-confusion corner: worlds whose asymmetric layout makes a sibling
+// identifier on the proof chain coincide with the identifier the message names for the other chain, no honest
+// relays of the link under test in the prefix (C05), and trials of exactly one mutation drawn from the
+// wrong-key / wrong-counterparty entries of the catalogue.
+func genDirected(prop string) func(t *rapid.T) mcase {
+	base := genCase(prop)
+	return func(t *rapid.T) mcase {
+		c := base(t)
+		c.Kind = rapid.SampledFrom([]int{0, 0, 1, 1, 2, 3}).Draw(t, "dkind")
+		match := 1 + ((c.Kind & 1) ^ c.Dir ^ 1)
+		if prop == "C06" {
+			match = 3 - match
+		}
+		c.Asym = match
+		c.Done = 0
+		c.NSib = len(c.Pk)
+		v2 := c.Kind >= 2
+		for j := range c.Pk { // re-shape the packets for the (possibly changed) protocol family
+			sp := &c.Pk[j]
+			sp.Out, sp.App = sp.Out[:1], []string{"A"}
+			if !v2 {
+				sp.App = nil
+				if sp.TH == 0 && sp.TT == 0 {
+					sp.TH = 100
+				}
+			} else {
+				sp.TH = 0
+				if sp.TT == 0 {
+					sp.TT = 4000
+				}
+			}
+		}
+		kinds := []string{"proof-twin", "proof-keyswap", "twin-src", "proof-other-packet", "sequence", "swap-ends"}
+		if prop == "C06" {
+			kinds = []string{"proof-twin", "proof-keyswap", "proof-other-packet", "sequence", "swap-ends"}
+			if v2 {
+				kinds = append(kinds, "acks-other", "acks-append")
+			} else {
+				kinds = append(kinds, "twin-dst", "ack-other")
+			}
+		}
+		c.Trials = nil
+		nt := rapid.IntRange(2, 4).Draw(t, "dtrials")
+		for i := 0; i < nt; i++ {
+			c.Trials = append(c.Trials, trial{Pick: rapid.IntRange(0, 5).Draw(t, "dpick"), Sig: rapid.IntRange(0, 2).Draw(t, "dsig"),
+				Muts: []mut{{K: rapid.SampledFrom(kinds).Draw(t, "dk"), V: rapid.IntRange(0, 11).Draw(t, "dv"), I: rapid.IntRange(0, 400).Draw(t, "di")}}})
+		}
+		return c
+	}
+}
